@@ -1,4 +1,4 @@
--- PINNED by bin/pin_tables: copy of Gen/MapOrder.lean as generated from /repo at 596f79e — regenerate, do not edit
+-- PINNED by bin/pin_tables: copy of Gen/MapOrder.lean as generated from /repo at acd082a — regenerate, do not edit
 namespace Ggql.Pinned
 /-- (function, ranged map expression, what the loop body does that can expose the order) -/
 def mapRanges : List (String × String × String) :=
@@ -13,7 +13,6 @@ def mapRanges : List (String × String × String) :=
    ("Input.CoerceIn", "tv", "none"),
    ("Root.ParseFS", "fileSet", "append+return"),
    ("Root.ResolveExecutable", "exe.Ops", "break"),
-   ("Root.ResolveExecutable", "subMap", "none"),
    ("Root.formArgs", "fd.args.dict", "none"),
    ("Root.replaceArgVars", "tv", "sorted-keys"),
    ("Root.validateDirUse", "du.Args", "sorted-keys"),
